@@ -95,8 +95,13 @@ def gen_ops(rng, world, n_ev, max_ops=25, allow_faults=True):
 
     def op_set(a=None):
         a = a or rng.choice(inputs)
-        return {'op': 'set', 'ev': ev(), 'target': spell(a),
-                'value': worlds.enc(new_value(rng))}
+        o = {'op': 'set', 'ev': ev(), 'target': spell(a),
+             'value': worlds.enc(new_value(rng))}
+        if rng.random() < 0.08 and a in world['cells']:
+            # the API also accepts the XLCell object itself
+            o['target'] = a
+            o['as_cell'] = True
+        return o
 
     def op_eval(a=None):
         a = a or rng.choice(formulas if formulas and rng.random() < 0.8
@@ -105,7 +110,11 @@ def gen_ops(rng, world, n_ev, max_ops=25, allow_faults=True):
 
     def op_get(a=None):
         a = a or rng.choice(order)
-        return {'op': 'get', 'ev': ev(), 'target': spell(a)}
+        o = {'op': 'get', 'ev': ev(), 'target': spell(a)}
+        if rng.random() < 0.08:
+            o['target'] = a
+            o['as_cell'] = True
+        return o
 
     ops = []
     # biased openings: the shapes the statement names
@@ -383,9 +392,13 @@ class History:
                 target = self.spell(op['target'])
                 addr = names.get(target, target)
                 via = target in names
+                handle = target
+                if op.get('as_cell') and addr in model.cells:
+                    handle = model.cells[addr]
+                    self.bump('probe:cell_object_as_address')
                 if kind == 'set':
                     value = worlds.dec(op['value'])
-                    out = outcome_of(ev.set_cell_value, target, value)
+                    out = outcome_of(ev.set_cell_value, handle, value)
                     self.log.append([seq, 'set', op['target'], out[0]])
                     if out[0] != 'ok':
                         self.fail('set-raised', seq, target=target,
@@ -395,13 +408,13 @@ class History:
                     pending_set = True
                     if via:
                         self.bump('probe:set_via_name')
-                    got = outcome_of(ev.get_cell_value, target)
+                    got = outcome_of(ev.get_cell_value, handle)
                     if got != ['ok', canon(value)]:
                         self.fail('get-after-set', seq, target=target,
                                   set=canon(value), got=got)
                     self.sig.append(f's{op.get("ev", 0)}{int(via)}')
                 elif kind == 'get':
-                    got = outcome_of(ev.get_cell_value, target)
+                    got = outcome_of(ev.get_cell_value, handle)
                     self.log.append([seq, 'get', op['target'], got])
                     if addr in acc:
                         if got[0] != 'ok' or _j(got[1]) not in acc[addr]:
